@@ -60,14 +60,17 @@ main() {
             handle_success
         else
             echo Newest changeset failed to compile
-            # Mark data as failed for use in 'newpolicy'.
-            touch $POLICYDB/failed
             [ "$PREV_POLICY" ] &&
                 echo "Left current policy as '$PREV_POLICY'"
             if try_revert; then
                 # Revert was successful, try to compile again.
                 continue
             fi
+            # Mark data as failed for use in 'newpolicy'.
+            # Must not set mark before try_revert. Otherwise an interrupted
+            # run would be taken as up to date and the bad changeset
+            # would never be reverted.
+            touch $POLICYDB/failed
         fi
         break
     done
